@@ -22,8 +22,8 @@ def mk_MA(f, name, L, n, space=None, types=None, cls=MA):
         types = list(LABELS[:n])
     if space is None:
         space = f.enum_sym(name + '_space', SP)
-    return f.obj(cls, data=data, rank=n, length=L, types=types,
-                 typeMap=dict((t, i) for i, t in enumerate(types)), space=space)
+    return f.make(cls, kwargs=dict(length=1, rank=n), data=data, rank=n, length=L, types=types,
+                  typeMap=dict((t, i) for i, t in enumerate(types)), space=space)
 
 
 def _spaces_compatible(a, b):
